@@ -54,8 +54,10 @@ func ValidateClientCommonConfig(c *v1.ClientCommonConfig) (Warning, error) {
 	}
 
 	if c.Transport.HeartbeatTimeout > 0 && c.Transport.HeartbeatInterval > 0 {
-		if c.Transport.HeartbeatTimeout < c.Transport.HeartbeatInterval {
-			errs = AppendError(errs, fmt.Errorf("invalid transport.heartbeatTimeout, heartbeat timeout should not less than heartbeat interval"))
+		// The timeout is measured from the last pong, and pongs arrive one interval apart: a timeout equal to the
+		// interval expires between two answered pings.
+		if c.Transport.HeartbeatTimeout <= c.Transport.HeartbeatInterval {
+			errs = AppendError(errs, fmt.Errorf("invalid transport.heartbeatTimeout, heartbeat timeout should be greater than heartbeat interval"))
 		}
 	}
 
